@@ -380,11 +380,17 @@ func VerifH_C19_object_input() {
 		steps: []tStep{
 			{id: "a", fields: map[string]any{"input": verifStepInput(vx("input", "k"))}, outcome: map[string]int{"deploy": 0, "start": 0, "result": 0}},
 		},
-		outputs: map[string]any{"success": map[any]any{"a": vx("steps", "a", "outputs", "success", "v"), "in": vx("input", "k")}},
+		outputs: map[string]any{"success": map[any]any{"a": vx("steps", "a", "outputs", "success", "v"), "in": vx("input", "k"), "e": vx("input", "e")}},
 	}
 	ew, run := verifPrepare(t)
 	k := verifrt.NondetVal("input.k")
-	res := verifExecute(ew, run, t, any(map[string]any{"k": k}))
+	// an explicitly empty string and an explicit null are values like any other: the schema judges them
+	doc := map[string]any{"k": k, "e": "", "n": nil}
+	res := verifExecute(ew, run, t, any(doc))
+	sc := ew.input.(*vScope)
+	seen, isMap := sc.seen.(map[string]any)
+	_, hasN := seen["n"]
+	verifrt.Assert(sc.sawInput && isMap && len(seen) == len(doc) && seen["e"] == any("") && hasN && seen["k"] == any(k), "the schema is asked to judge the document the caller passed, every field as given")
 	verifrt.Assert(res.err == nil && res.id == "success", "a valid input is accepted and the run produces its output")
 	if res.err != nil {
 		return
@@ -399,6 +405,7 @@ func VerifH_C19_object_input() {
 	}
 	m, ok := res.data.(map[any]any)
 	verifrt.Assert(ok && m["in"] == want, "the workflow output observes the schema-normalised input S(U(x))")
+	verifrt.Assert(ok && m["e"] == any(""), "an explicitly empty string in the input is the value references to it observe")
 }
 
 // C06: the caller cancels and closing the steps takes longer than the fixed grace period (5 s): the run
@@ -587,6 +594,38 @@ func VerifH_C14_concurrent_join() {
 	<-done
 	verifCheck(t, runA, resA, verifNorm(inA), vCheckOpts{})
 	verifCheck(t, runB, resB, verifNorm(inB), vCheckOpts{})
+}
+
+// C15 (with C07): a wait-optional expression that cannot be evaluated on the value its source produced does
+// not turn into "field absent": the source was produced, so the consumer either gets the field or the run
+// ends with the evaluation error - the consumer is never started without it.
+func VerifH_C15_optional_eval_error() {
+	bad := vx("steps", "a", "outputs", "success", "v")
+	bad.fail = true
+	t := tWorkflow{
+		steps: []tStep{
+			{id: "a", fields: map[string]any{"input": verifStepInput(vx("input"))}, outcome: map[string]int{"deploy": 0, "start": 0}},
+			{id: "b", fields: map[string]any{"input": map[any]any{
+				"x": vx("input"),
+				"w": &infer.OptionalExpression{Expr: bad, WaitForCompletion: true},
+			}}, outcome: map[string]int{"deploy": 0, "start": 0, "result": 0}},
+		},
+		outputs: map[string]any{"success": map[any]any{"b": vx("steps", "b", "outputs", "success", "v")}},
+	}
+	ew, run := verifPrepare(t)
+	res := verifExecute(ew, run, t, verifrt.NondetVal("input"))
+	for _, h := range run.handovers {
+		if h.step == "b" && h.stage == "starting" && run.emitted["a.outputs.success"] > 0 && run.emitted["a.outputs.success"] < h.seq {
+			_, has := h.input["input"].(map[any]any)["w"]
+			verifrt.Assert(has, "the source was produced before the consumer's input was built: the optional field is not silently left out")
+		}
+	}
+	if run.produced("a", "outputs", "success") && res.err == nil && !res.stuck {
+		verifrt.Reach("source-produced")
+	}
+	if res.err != nil {
+		verifrt.Reach("error")
+	}
 }
 
 // C15: one object with a required, a wait-optional and a soft-optional field.
